@@ -207,6 +207,12 @@ def rule_CF(ctx, tier):
             rr.fail("port-overwritten", "Config::verify overwrites an explicitly configured btc_rpc_port", where=v.line_of(bb))
     else:
         rr.fail("port-writes=%d" % len(pw), "expected one write of btc_rpc_port in verify", where=v.span)
+    # verify validates; it rewrites nothing the operator configured except the two documented normalisations
+    extra = sorted(f for f in _writes(ctx, v) if f not in ("btc_rpc_port", "btc_network"))
+    if not extra:
+        rr.ok("verify writes only btc_network (normalisation) and btc_rpc_port (default when unset)")
+    else:
+        rr.fail("verify-rewrites:%s" % ",".join(extra), "Config::verify changes the configured value of %s: the tower then runs with a value other than the one the operator set (and the one the documentation promises)" % ", ".join("`%s`" % f for f in extra), where=v.span)
     # unknown network => Err
     unk = [bb for bb in errs if not eq_facts(bb) or all(x is False for x in eq_facts(bb).values())]
     if unk:
@@ -225,6 +231,14 @@ def rule_CF(ctx, tier):
                 cb = P.bodies.get(cl[1])
                 if cb and sites(cb, "std::process::exit"):
                     ok = True
+    # the Gatekeeper is built with the configured subscription parameters, field for field
+    for bb in sites(m, "teos::gatekeeper::Gatekeeper::new"):
+        want = {1: "subscription_slots", 2: "subscription_duration", 3: "expiry_delta"}
+        bad = [(i, f) for i, f in want.items() if not (og.show(arg_origin(ctx, m, bb, i)).endswith(".f:" + f) and has_call(arg_origin(ctx, m, bb, i), "config::from_file"))]
+        if not bad:
+            rr.ok("Gatekeeper::new(.., conf.subscription_slots, conf.subscription_duration, conf.expiry_delta, ..)")
+        else:
+            rr.fail("gatekeeper-params", "teosd::main builds the Gatekeeper with %s" % ", ".join("argument %d = `%s` (expected conf.%s)" % (i, og.show(arg_origin(ctx, m, bb, i))[:60], f) for i, f in bad), where=m.line_of(bb))
     if vs and ok:
         rr.ok("main exits when verify fails")
     else:
